@@ -304,6 +304,11 @@ class Shell:
             except ValueError as e:
                 print("Error:", e)
             else:
+                if not 0 <= b < len(self.debugger.program.code):
+                    # E.g., a label after the last operation of the program.
+                    print("Error: there is no instruction at that location.")
+                    return
+
                 self.debugger.set_breakpoint(b)
                 loc = self.debugger.op(b).loc
                 print("Breakpoint set in file {0.path}, line {0.line}.".format(loc))
